@@ -26,6 +26,7 @@ PROGRESS_SUFFIX = ('ReadHandle::read', 'ReadHandle::read_enum')
 def is_progress_call(fn):
     fn = fn or ''
     return fn.endswith(PROGRESS_SUFFIX) or 'copy_ascii_' in fn or 'copy_utf' in fn or ('Handle::write_' in fn and fn.startswith('handles::')) \
+        or (fn.endswith('::next') and 'Iterator' in fn) \
         or fn in ('ascii::ascii_to_ascii', 'ascii::ascii_to_basic_latin', 'ascii::basic_latin_to_ascii', 'utf_8::convert_utf8_to_utf16_up_to_invalid')
 
 
